@@ -308,7 +308,9 @@ func declaredDefaults(mk func() tarsStruct, t reflect.Type) map[int]reflect.Valu
 			continue
 		}
 		a, b := dumpVal(after[0].Field(f.Idx)), dumpVal(after[1].Field(f.Idx))
-		if a != before[0][i] || b != before[1][i] {
+		// the repaired ResetDefault assigns every member (declared default, else the zero value): a default equal
+		// to the zero value cannot be told from none - and behaves the same - and is reported as none
+		if (a != before[0][i] || b != before[1][i]) && a != dumpVal(reflect.Zero(after[0].Field(f.Idx).Type())) {
 			out[f.Idx] = after[0].Field(f.Idx)
 		}
 	}
